@@ -182,8 +182,7 @@ def _interactive(seed: int) -> dict:
 	from rogw.tranp.app.app import App
 	from rogw.tranp.lang.module import to_fullyname
 	rnd = random.Random(seed)
-	# 'syn' is left out: an unparsable in-memory submission kills the loop (C07's finding), which would end the session
-	script = [rnd.choice(['ia', 'id', 'pre', 'walk']) for _ in range(14)] + ['ia', 'id']
+	script = [rnd.choice(list(MAIN)) for _ in range(14)] + ['ia', 'id']
 	feed = iter([MAIN[v].rstrip('\n').split('\n') for v in script] + [['exit']])
 	failures = []
 	fresh = {v: fresh_text('main', v) for v in ('ia', 'id')}
